@@ -1,6 +1,6 @@
 """C08 Fast-mode dataset equals light-mode items, however it is initialised."""
 import astq
-from rules import cgsize, dsinit, rv64, rvhsem, x86hsem, aeshw
+from rules import cgsize, dsinit, rv64, rvhsem, x86hsem, aeshw, a64dsread
 
 LEVEL = 'other'
 TECHNIQUE = 'affine / interval case analysis of randomx_init_dataset over (count mod 4) x (count < 4) regions, constant-table agreement spec vs C++ vs assembled object, call-sequence and shape rules on the item construction; evaluation of the address-arithmetic slice on a sample set of ranges'
@@ -22,6 +22,9 @@ EXPLANATION += ' RVV-SS-HSEM (the vector dataset-initialisation generator comput
 CLAIM += (' The vector dataset-initialisation entry of the RISC-V back-end is handed out only for vector lengths its vsetivli instructions can honour (RVV-JIT-VLEN); initDatasetItem is decided by symbolic evaluation in every configuration that compiles it (DS-ITEM).')
 EXPLANATION += ' RVV-JIT-VLEN.'
 
+EXPLANATION += ' A64-DSITEM-HSEM.'
+CLAIM += (' The hand-written pieces of the A64 dataset-item routine, executed on terms, are the steps of specification 7.3 (register initialisation with the eight constants, line selection with the mask generateSuperscalarHash writes, XOR of the eight line words, result store, register-value update) (A64-DSITEM-HSEM).')
+
 
 def run(ctx, R):
     F = astq.Facts(ctx, 'K0')
@@ -34,3 +37,4 @@ def run(ctx, R):
     rv64.rule_rvv_tpl_reinit(ctx, R)
     rvhsem.rule_rvv_ss_hsem(ctx, R)
     aeshw.rule_rvv_jit_vlen(ctx, R)
+    a64dsread.rule_dsitem(ctx, R)
